@@ -401,6 +401,20 @@ def _selected(body, case: str):
     matters is not understood.  Tests compare the setting with string constants.
     """
     bound = [None]
+    aliases = {}
+
+    def expand(expr):
+        import copy
+
+        class Sub(ast.NodeTransformer):
+            def visit_Name(self, node):
+                if isinstance(node.ctx, ast.Load) and node.id in aliases:
+                    return copy.deepcopy(aliases[node.id])
+                return node
+        return Sub().visit(copy.deepcopy(expr))
+
+    def setting():
+        return ast.unparse(expand(ast.parse(_SETTING, mode='eval').body))
 
     def truth(test):
         if isinstance(test, ast.UnaryOp) and isinstance(test.op, ast.Not):
@@ -412,7 +426,7 @@ def _selected(body, case: str):
                 return None
             return all(values) if isinstance(test.op, ast.And) else any(values)
         if isinstance(test, ast.Compare) and len(test.ops) == 1 and \
-                ast.unparse(test.left) == _SETTING:
+                ast.unparse(expand(test.left)) == setting():
             op, right = test.ops[0], test.comparators[0]
             if isinstance(op, (ast.Eq, ast.NotEq)) and isinstance(right, ast.Constant) \
                     and isinstance(right.value, str):
@@ -431,7 +445,8 @@ def _selected(body, case: str):
         for stmt in stmts:
             if isinstance(stmt, ast.If):
                 mentions = any(isinstance(n, ast.Name) and n.id == 'WaitQueue'
-                               for n in ast.walk(stmt)) or _SETTING in ast.unparse(stmt.test)
+                               for n in ast.walk(stmt)) or \
+                    setting() in ast.unparse(expand(stmt.test))
                 if not mentions:
                     continue
                 value = truth(stmt.test)
@@ -449,6 +464,10 @@ def _selected(body, case: str):
                         bound[0] = stmt.value.id
                     else:
                         return '?'
+                elif len(targets) == 1 and isinstance(targets[0], ast.Name) and \
+                        stmt.value is not None:
+                    # a module level name for (part of) the setting
+                    aliases[targets[0].id] = expand(stmt.value)
             elif any(isinstance(n, ast.Name) and n.id == 'WaitQueue'
                      and isinstance(n.ctx, (ast.Store, ast.Del)) for n in ast.walk(stmt)) \
                     and not isinstance(stmt, (ast.FunctionDef, ast.ClassDef,
